@@ -11,7 +11,7 @@
    -i * R operators). *)
 From Coq Require Import List Arith Lia Bool.
 From GB Require Import Base.Field Base.FNum Base.Tables Model.Shell Model.MomentInt
-  Model.DiffOp Model.Spherical Model.Assembly Model.Overlap.
+  Model.DiffOp Model.OneElec Model.Spherical Model.Assembly Model.Overlap.
 Import ListNotations.
 
 Section OneBody.
@@ -61,6 +61,14 @@ Definition momentum_integral_re (basis : list (shell F)) (T : option (list (list
 
 Definition angmom_integral_re (basis : list (shell F)) (T : option (list (list F))) :=
   two_symm_integral_h vzero vadd vscale vneg (angmom_block_re K) basis T.
+
+(* point_charge.py:268-323 and nuclear_electron_attraction.py:39-42 *)
+Definition point_charge_integral (points : list (F * F * F * F)) (basis : list (shell F))
+           (T : option (list (list F))) : list (list (list F)) :=
+  two_symm_integral K vzero vadd vscale (point_charge_block K points) basis T.
+Definition nuclear_attraction_integral (points : list (F * F * F * F)) (basis : list (shell F))
+           (T : option (list (list F))) : list (list F) :=
+  map (map (FNum.fsum K)) (point_charge_integral points basis T).
 
 (* the pinned tree's behaviour (plain transposition), kept for the record of the defect *)
 Definition momentum_integral_re_plain (basis : list (shell F)) (T : option (list (list F))) :=
